@@ -537,7 +537,8 @@ class Deb822ParsedTokenList(Generic[VE, ST],
         else:
             text = self._generate_reformatted_field_content()
 
-        new_content = text.splitlines(keepends=True)
+        # (text ends on a newline; only "\n" separates the lines of a value)
+        new_content = [line + "\n" for line in text.split("\n")[:-1]]
 
         # As absurd as it might seem, it is easier to just use the parser to
         # construct the AST correctly
